@@ -103,6 +103,13 @@ Definition c10_ok (c : iso_case) : bool :=
 Definition c10_violations (cases : list iso_case) : list nat :=
   bad_indexes (fun c => negb (c10_ok c)) 0 cases.
 
+(** C06 at the interpreter boundary: after every execution (also one that fails, also one given bindings that JSON
+    cannot write) the caller's bindings are what they were *)
+Definition c06_js_ok (c : iso_case) : bool :=
+  forallb (bs_intact c) (ic_go_pol c ++ ic_go_probe c) && ic_stable c.
+Definition c06_js_violations (cases : list iso_case) : list nat :=
+  bad_indexes (fun c => negb (c06_js_ok c)) 0 cases.
+
 (** known finding D22, exactly: the property fails, some script of the case
     assigns or deletes below a member of props, the caller's bindings are
     intact everywhere, and everything Go did is what the model - whose only
